@@ -212,30 +212,34 @@ fn classify_known(b: &Built, cmds: &CmdOut, q: &GenQuery, wb: &str, observed: &B
             }
         }
     }
-    let Some(k) = w.died_at else { return None };
-    let at = *w.trail.last()?;
-    // (2) a word that ends inside a within-word automaton counts as matched
-    let word = &q.words[k];
-    for (sym, r) in &b.dfa.trans[at] {
-        if let Sym::Word { canon, .. } = sym {
-            if let Some(sub) = b.words.get(canon) {
-                if interp::word_truncated(sub, cmds, word) {
-                    // continue from the word's target
-                    let mut st = Some(*r);
-                    for w2 in &q.words[k + 1..] {
-                        st = st.and_then(|s| {
-                            let rs = interp::readers(b, cmds, s, w2);
-                            rs.first().map(|(_, t)| *t)
-                        });
-                    }
-                    if let Some(s) = st {
-                        let by = interp::candidates_by_level(b, cmds, s, &q.cur);
-                        let first: BTreeSet<String> = by.into_iter().next().map(|(_, s)| s).unwrap_or_default().into_iter().map(|c| interp::strip_wordbreaks(&q.cur, wb, &c)).collect();
-                        if &first == observed {
-                            return Some("F-truncated-word-accepted");
+    // (2) a word that ends inside a within-word automaton counts as matched (and within-word expressions are
+    // tried before commands and placeholders): follow the command line the way the script does
+    if interp::truncated_region(b, cmds, &q.words) {
+        let mut st = Some(b.dfa.start);
+        for word in &q.words {
+            st = st.and_then(|s| {
+                // literal first, then (possibly truncated) within-word expressions, then the rest
+                let rs = interp::readers(b, cmds, s, word);
+                if let Some((_, t)) = rs.iter().find(|(sy, _)| matches!(sy, Sym::Lit { .. })) {
+                    return Some(*t);
+                }
+                for (sym, r) in &b.dfa.trans[s] {
+                    if let Sym::Word { canon, .. } = sym {
+                        if let Some(sub) = b.words.get(canon) {
+                            if interp::word_reads(sub, cmds, word) || interp::word_truncated(sub, cmds, word) {
+                                return Some(*r);
+                            }
                         }
                     }
                 }
+                rs.first().map(|(_, t)| *t)
+            });
+        }
+        if let Some(s) = st {
+            let by = interp::candidates_by_level(b, cmds, s, &q.cur);
+            let first: BTreeSet<String> = by.into_iter().next().map(|(_, s)| s).unwrap_or_default().into_iter().map(|c| interp::strip_wordbreaks(&q.cur, wb, &c)).collect();
+            if &first == observed {
+                return Some("F-truncated-word-accepted");
             }
         }
     }
@@ -349,6 +353,9 @@ fn case(bytes: &[u8]) -> Outcome {
 
 fn judge_grammar(g: &G, v: &Vocab, text: &str, qbytes: &[u8], nq: usize) -> Outcome {
     let Ok(b) = model::denote(g, "bash") else { return Outcome::Skip("model cannot elaborate".into()) };
+    if interp::same_literal_two_labels(&b) {
+        return Outcome::Skip("outside the stated domain: the same literal is expected at one point with two labels (C09's region)".into());
+    }
     let cmds = cmd_outputs(g, v);
     let script = match compile_bash(text) {
         Ok(s) => s,
